@@ -45,7 +45,7 @@ PROPS = {
     "C06": {
         "modules": ["PP.Props.C06", "PP.Props.HashLen", "PP.Props.CurveOrder"], "level": "proof", "technique": "Lean 4 proof by composition (C13, C14, C15, C16, C17, curve orders) + differential correspondence against python RFC pipeline",
         "text": "hash_to_curve / encode_to_curve = hash_to_field (RFC 9380 section 5, C13) followed by the map of C14, for any expander meeting C13; the result lies in the order-r subgroup (hashToCurveG1_inSub' etc., hypothesis-free). The curve groups are determined outright (PP.Props.CurveOrder): #E(Fq) = h1*r, E(Fq) = Z/((1-x)/3) x Z/((1-x)r) with explicit generators, exponent (1-x)r; #E'(Fq2) = h2*r, E'(Fq2) = Z/299 x Z/(h2 r/299) — from the trivial bound #E <= 2|F|+1, the negative traces, points of exactly known order (kernel evaluation, Pratt certificates for all prime factors incl. the 448-bit cofactor prime) and the order-3 automorphism (x,y)->(beta x,y) for independence; so the subgroup clauses hold with NO hypothesis." + DIFF,
-        "note": "RFC text/vectors unavailable offline: iso coefficients tied to the RFC by structural theorems + repo KATs; isogeny additivity (C16) is test-only (not needed for this property)",
+        "note": "RFC text/vectors unavailable offline: iso coefficients tied to the RFC by structural theorems + repo KATs; isogeny additivity is proved in C16Hom / C16Hom11 (not needed for this property)",
         "partial": ["iso coefficients tied to RFC by structural theorems + repo KATs"],
     },
     "C07": {
@@ -96,10 +96,9 @@ PROPS = {
         "note": "chains' exponents from C17's kernel facts",
     },
     "C16": {
-        "modules": ["PP.Props.C16", "PP.Props.C16Inst", "PP.Props.C16Hom"], "level": "proof", "technique": "Lean 4 proof (homogeneous Horner evaluation, polynomial identity of degree 63 / 15 checked in the kernel on extracted coefficients, homomorphism law of the 3-isogeny by abscissa identities + oddness + absence of 2-torsion) + differential correspondence; additivity of the 11-isogeny tested",
-        "text": "evalIso = the rational map XN/XD, y*YN/YD on every representative, identity and kernel points to identity, image on the target curve (polynomial identity on the extracted coefficients), compatible with negation, representation independent. Homomorphism law: PROVED for the 3-isogeny of G2 (PP.Props.C16Hom.iso3_hom: for all points P, Q of E2'(Fq2), identity, opposite points and doubling included, iso3(P+Q) = iso3(P) + iso3(Q) with Mathlib's group laws on both curves; iso3 is an injective additive map; at model level Jac.abs(iso3 r) = Jac.abs(iso3 p) + Jac.abs(iso3 q) whenever r represents p + q; the kernel has no rational point, so no exceptional case survives). For the 11-isogeny of G1 it is NOT proved (its kernel is rational, the chord identity has degree > 70; no general theorem in Mathlib) — tested against the a != 0 group law of E1' incl. kernel translates." + DIFF,
-        "note": "partial: additivity of the 11-isogeny (G1) is test-only; the 3-isogeny (G2) is proved",
-        "partial": ["homomorphism law of the G1 11-isogeny (test only)"],
+        "modules": ["PP.Props.C16", "PP.Props.C16Inst", "PP.Props.C16Hom", "PP.Props.C16Hom11"], "level": "proof", "technique": "Lean 4 proof (homogeneous Horner evaluation; polynomial identities of degree 63 / 15 / 84 and a bivariate chord identity of degree (55,55) checked by the kernel on the extracted coefficients via evaluation on a 56 x 56 grid + degree bounds; homomorphism law of both isogenies from abscissa identities, oddness, absence of 2-torsion and translation invariance under the rational kernel) + differential correspondence",
+        "text": "evalIso = the rational map XN/XD, y*YN/YD on every representative, identity and kernel points to identity, image on the target curve (polynomial identity on the extracted coefficients), compatible with negation, representation independent. HOMOMORPHISM LAW PROVED FOR BOTH ISOGENIES, for all points incl. identity, opposite points, doubling and kernel translates, with Mathlib's group laws on the isogenous and on the target curve: PP.Props.C16Hom.iso3_hom (E2'(Fq2) -> E2(Fq2), injective on rational points) and PP.Props.C16Hom11.iso11_hom (E1'(Fq) -> E1(Fq); its kernel is exactly the cyclic group of order 11 generated by an explicit rational point; translation invariance under every kernel point); at model level Jac.abs(iso r) = Jac.abs(iso p) + Jac.abs(iso q) whenever r represents p + q, and map2_to_curve = [h_eff] iso(sswu u0 + sswu u1) with the sum taken on the isogenous curve (the RFC's formulation)." + DIFF,
+        "note": "none beyond the trusted base",
     },
     "C17": {
         "modules": ["PP.Props.C17", "PP.Props.C17Inst", "PP.Props.CurveOrder"], "level": "proof", "technique": "Lean 4 proof (straight-line program simulation, exponents of the extracted chains in the kernel, curve group orders and exponent) + differential correspondence on full-curve points",
